@@ -1,1 +1,77 @@
-From PV Require Import M_Merge.
+(* C03 -- Merging conserves every stack's weight and symbol information.
+   Property theorems only: each is closed by [exact] of a lemma from L_Merge / L_SampleKey and
+   followed by Print Assumptions.  The model [merge] (M_Merge) is tied to profile.Merge of /repo's
+   current tree by the correspondence check on full result dumps (R_C03). *)
+From Coq Require Import List ZArith String Bool Permutation.
+From PV Require Import M_Merge S_Merge L_Assoc L_Merge.
+Import ListNotations.
+Open Scope Z_scope.
+
+(* -- conservation: for every (stack, label set) identity -- frames compared by binary, relative
+   address, function name / system name / file / start line, line, column, inline nesting and
+   folded flag, never by ids -- and every sample-type column, the result's weight is the int64 sum
+   of the inputs' weights.  Holds for ALL input lists (no validity hypothesis is needed by the
+   model; validity is what makes the model faithful to the Go code). *)
+Theorem merge_conserves : forall ps q,
+  merge ps = MOk q -> forall k j, eq64 (wt q k j) (sumZ (map (fun p => wt p k j) ps)).
+Proof. exact merge_conserves_lemma. Qed.
+Print Assumptions merge_conserves.
+
+(* -- per-type totals are conserved -- *)
+Theorem totals_conserved : forall ps q,
+  merge ps = MOk q -> forall j, eq64 (total q j) (sumZ (map (fun p => total p j) ps)).
+Proof. exact totals_conserved_lemma. Qed.
+Print Assumptions totals_conserved.
+
+(* -- stacks whose sum is all zero disappear: the result has no all-zero sample -- *)
+Theorem merge_no_zero_sample : forall ps q,
+  merge ps = MOk q -> forall s, In s (p_sample q) -> is_zero_sample s = false.
+Proof. exact merge_no_zero_lemma. Qed.
+Print Assumptions merge_no_zero_sample.
+
+(* -- the weights do not depend on the order of the inputs -- *)
+Theorem merge_perm : forall ps ps' q q',
+  Permutation ps ps' -> merge ps = MOk q -> merge ps' = MOk q' ->
+  forall k j, eq64 (wt q k j) (wt q' k j).
+Proof. exact merge_perm_lemma. Qed.
+Print Assumptions merge_perm.
+
+(* -- header fields combine as documented: earliest non-zero time, int64 sum of durations, maximum
+   period (for non-negative periods), de-duplicated union of comments in order of first occurrence,
+   first non-empty default sample type / doc URL, everything else from the first profile -- *)
+Theorem merge_headers : forall p0 rest q,
+  merge (p0 :: rest) = MOk q ->
+  p_timenanos q = spec_time (map p_timenanos (p0 :: rest)) /\
+  p_durationnanos q = spec_duration (map p_durationnanos (p0 :: rest)) /\
+  (Forall (fun p => 0 <= p_period p) (p0 :: rest) -> p_period q = spec_period (map p_period (p0 :: rest))) /\
+  p_comments q = spec_comments (map p_comments (p0 :: rest)) /\
+  p_defaultsampletype q = first_nonempty (map p_defaultsampletype (p0 :: rest)) /\
+  p_docurl q = first_nonempty (map p_docurl (p0 :: rest)) /\
+  p_dropframes q = p_dropframes p0 /\ p_keepframes q = p_keepframes p0 /\
+  p_sampletype q = p_sampletype p0 /\ p_periodtype q = p_periodtype p0.
+Proof. exact merge_headers_lemma. Qed.
+Print Assumptions merge_headers.
+
+(* what "de-duplicated union in order" means *)
+Theorem comments_dedup_is_union : forall l, NoDup (dedup l) /\ forall x, In x (dedup l) <-> In x l.
+Proof. intros l. split; [apply dedup_nodup | apply dedup_in]. Qed.
+Print Assumptions comments_dedup_is_union.
+
+(* -- non-vacuity -- *)
+Definition ex_vt := {| vt_type := "samples"; vt_unit := "count" |}.
+Definition ex_fn (id : Z) (n : string) := {| f_id := id; f_name := n; f_sysname := n; f_file := "a.go"; f_startline := 1 |}.
+Definition ex_loc (id fid : Z) := {| l_id := id; l_mapping := 0; l_addr := 16; l_lines := [{| ln_fn := fid; ln_line := 3; ln_col := 1 |}]; l_folded := false |}.
+Definition ex_sample (lid v : Z) := {| s_loc := [lid]; s_val := [v]; s_label := []; s_numlabel := []; s_numunit := [] |}.
+Definition ex_prof (fid lid v t : Z) : profile :=
+  {| p_sampletype := [ex_vt]; p_defaultsampletype := ""; p_sample := [ex_sample lid v]; p_mapping := [];
+     p_location := [ex_loc lid fid]; p_function := [ex_fn fid "main"]; p_comments := ["c"]; p_docurl := "";
+     p_dropframes := ""; p_keepframes := ""; p_timenanos := t; p_durationnanos := 1;
+     p_periodtype := Some ex_vt; p_period := 10 |}.
+(* the same stack under different ids in two inputs is summed; the earliest non-zero time wins *)
+Example merge_example :
+  match merge [ex_prof 7 9 5 0; ex_prof 2 3 6 40; ex_prof 1 1 (-11) 30] with
+  | MOk q => True | _ => False end /\
+  match merge [ex_prof 7 9 5 0; ex_prof 2 3 6 40] with
+  | MOk q => map s_val (p_sample q) = [[11]] /\ p_timenanos q = 40 /\ p_durationnanos q = 2 /\ p_comments q = ["c"%string]
+  | _ => False end.
+Proof. vm_compute. repeat split. Qed.
